@@ -498,7 +498,28 @@ class PEval:
             if r is not None:
                 return r
             return self.ev(e["e"], env, depth)
-        if k in PASS or k == "Cast":
+        if k == "Cast":
+            v = self.ev(e["e"], env, depth)
+            dv = deref(v)
+            if isinstance(dv, (int, float)) and "t" in e:
+                to = self.lib.ty_str(e["t"])
+                frm = self.lib.ty_str(e["e"]["t"]) if "t" in e["e"] else ""
+                m_ = re.fullmatch(r"([iu])(8|16|32|64|128|size)", to)
+                if to in ("f64", "f32") and not isinstance(dv, bool):
+                    return float(dv)
+                if m_ and isinstance(dv, float):
+                    import math
+                    bits = 64 if m_.group(2) == "size" else int(m_.group(2))
+                    lo_, hi_ = (-(1 << (bits - 1)), (1 << (bits - 1)) - 1) if m_.group(1) == "i" else (0, (1 << bits) - 1)
+                    return 0 if math.isnan(dv) else (hi_ if dv >= hi_ else (lo_ if dv <= lo_ else int(dv)))
+                if m_ and isinstance(dv, bool):
+                    return int(dv)
+                if m_ and isinstance(dv, int) and frm != "char" and re.fullmatch(r"[iu](8|16|32|64|128|size)", frm or ""):
+                    bits = 64 if m_.group(2) == "size" else int(m_.group(2))
+                    w = dv & ((1 << bits) - 1)
+                    return w - (1 << bits) if m_.group(1) == "i" and w >> (bits - 1) else w
+            return v
+        if k in PASS:
             return self.ev(e["e"], env, depth)
         if k == "Lit":
             return self.lit(e)
@@ -774,8 +795,16 @@ class PEval:
                     return {"Lt": l < r, "Le": l <= r, "Gt": l > r, "Ge": l >= r}[op]
                 if op in ("Add", "Sub", "Mul"):
                     return {"Add": l + r, "Sub": l - r, "Mul": l * r}[op]
-                if op == "Div" and r != 0:
-                    return l / r
+                if op == "Div":
+                    import math
+                    if r != 0:
+                        try:
+                            return l / r
+                        except OverflowError:
+                            return math.copysign(math.inf, l) * math.copysign(1.0, r)
+                    if l == 0 or math.isnan(l):
+                        return math.nan
+                    return math.copysign(math.inf, l) * math.copysign(1.0, r)
             if isinstance(l, int) and isinstance(r, int):
                 if op == "Add":
                     return l + r
@@ -1120,6 +1149,37 @@ class PEval:
                 return False
             if re.fullmatch(r"[iu](8|16|32|64|128|size)", t or ""):
                 return 0
+        if node is not None and "t" in node and fname in ("map", "and_then", "map_or", "map_or_else", "filter_map", "then", "unwrap_or_else", "flat_map"):
+            self._adaptor_t = self.lib.ty_str(node["t"])      # lets a function VALUE (`.map(TryInto::try_into)`) see its result type
+        if fname in ("try_from", "try_into") and len(args) == 1 and isinstance(a0, int) and not isinstance(a0, bool):
+            m_ = re.match(r"core::result::Result<([iu])(8|16|32|64|128|size), ", self.lib.ty_str(node["t"])) if node is not None and "t" in node else \
+                re.search(r"core::result::Result<([iu])(8|16|32|64|128|size), core::num::error::TryFromIntError>", getattr(self, "_adaptor_t", ""))
+            if m_:
+                bits = 64 if m_.group(2) == "size" else int(m_.group(2))
+                lo_, hi_ = (-(1 << (bits - 1)), (1 << (bits - 1)) - 1) if m_.group(1) == "i" else (0, (1 << bits) - 1)
+                return ok(a0) if lo_ <= a0 <= hi_ else err(Struct("#TryFromIntError", {}))
+        if fname == "from_str_radix" and len(args) == 2 and isinstance(a0, str) and isinstance(args[1], int) and "core::num::" in path:
+            m_ = re.search(r"<impl ([iu])(8|16|32|64|128|size)>", path)
+            if m_ and 2 <= args[1] <= 36:
+                bits = 64 if m_.group(2) == "size" else int(m_.group(2))
+                signed = m_.group(1) == "i"
+                digits = "0123456789abcdefghijklmnopqrstuvwxyz"[:args[1]]
+                body = a0[1:] if a0[:1] in (("+", "-") if signed else ("+",)) else a0
+                if body and all(ch.lower() in digits for ch in body):
+                    v_ = int(a0, args[1])
+                    lo_, hi_ = (-(1 << (bits - 1)), (1 << (bits - 1)) - 1) if signed else (0, (1 << bits) - 1)
+                    if lo_ <= v_ <= hi_:
+                        return ok(v_)
+                return err(Struct("#ParseIntError", {}))
+        if fname == "pow" and len(args) == 2 and isinstance(a0, int) and isinstance(args[1], int) and not isinstance(a0, bool) and "core::num::" in path and args[1] >= 0:
+            m_ = re.search(r"<impl ([iu])(8|16|32|64|128|size)>", path)
+            v_ = a0 ** args[1]
+            if m_:
+                bits = 64 if m_.group(2) == "size" else int(m_.group(2))
+                lo_, hi_ = (-(1 << (bits - 1)), (1 << (bits - 1)) - 1) if m_.group(1) == "i" else (0, (1 << bits) - 1)
+                if not lo_ <= v_ <= hi_:
+                    return self.unknown("integer overflow in pow (panics in debug builds)")
+            return v_
         if fname in ("try_from", "try_into") and len(args) == 1 and isinstance(a0, (list, Iter)) and node is not None and "t" in node:
             # Vec<T> / &[T] -> [T; N]: succeeds exactly when the length is N (the Vec comes back untouched otherwise)
             m = re.match(r"core::result::Result<&?(?:mut )?\[.*; (\d+)\], ", self.lib.ty_str(node["t"]))
@@ -1351,6 +1411,21 @@ class PEval:
             if fname == "classify":
                 cat = "Nan" if math.isnan(a0) else ("Infinite" if math.isinf(a0) else ("Zero" if a0 == 0 else "Normal"))
                 return Enum("core::num::FpCategory", cat)
+            if fname == "powi" and len(args) == 2 and isinstance(args[1], int):
+                from . import floatfmt
+                return floatfmt.powi(a0, args[1])
+            if fname == "to_bits":
+                import struct
+                return struct.unpack("<Q", struct.pack("<d", a0))[0]
+            if fname == "to_string":
+                from . import floatfmt
+                return floatfmt.display(a0)
+            if fname in ("eq", "ne") and len(args) == 2 and isinstance(args[1], (int, float)) and not isinstance(args[1], bool):
+                return (a0 == float(args[1])) if fname == "eq" else (a0 != float(args[1]))
+            if fname == "signum" and not math.isnan(a0):
+                return math.copysign(1.0, a0)
+            if fname == "copysign" and len(args) == 2 and isinstance(args[1], float):
+                return math.copysign(a0, args[1])
             if fname in ("abs", "floor", "ceil", "trunc", "fract", "round") and math.isfinite(a0):
                 return {"abs": abs(a0), "floor": float(math.floor(a0)), "ceil": float(math.ceil(a0)), "trunc": float(math.trunc(a0)), "fract": a0 - math.trunc(a0), "round": float(round(a0))}[fname]
         if all(isinstance(x, int) and not isinstance(x, bool) for x in args) and args:
@@ -1693,6 +1768,19 @@ class PEval:
                     digits = digits.rjust(max(0, width - len(sign) - len(prefix)), "0")
                     return sign + prefix + digits
                 body = sign + prefix + digits
+        elif isinstance(v, float):
+            from . import floatfmt
+            if prec is not None:
+                return None
+            if kind == "display":
+                body = floatfmt.display(v)
+            elif kind in ("lower_exp", "upper_exp"):
+                body = floatfmt.lower_exp(v, kind == "upper_exp")
+            else:
+                return None
+            if plus and not body.startswith("-"):
+                body = "+" + body
+            numeric = True
         elif isinstance(v, str):
             if kind != "display":
                 return None
@@ -2076,8 +2164,20 @@ class PEval:
                 cand = self.lib.fn("<%s as core::str::traits::FromStr>::from_str" % inner)
                 if cand is not None and thir.body_of(cand):
                     return self.call_fn(cand, [a0], depth + 1)
-                if inner in ("usize", "u32", "u64", "i32", "i64", "u8"):
-                    return ok(int(a0)) if a0.strip().lstrip("+").isdigit() else err(Struct("#ParseIntError", {}))
+                if inner in ("f64", "f32"):
+                    from . import floatfmt
+                    v_ = floatfmt.parse_f64(a0)
+                    return ok(v_) if v_ is not None else err(Struct("#ParseFloatError", {}))
+                m_ = re.fullmatch(r"([iu])(8|16|32|64|128|size)", inner)
+                if m_:
+                    bits = 64 if m_.group(2) == "size" else int(m_.group(2))
+                    signed = m_.group(1) == "i"
+                    if re.fullmatch(r"[+-]?[0-9]+" if signed else r"\+?[0-9]+", a0):
+                        v_ = int(a0)
+                        lo_, hi_ = (-(1 << (bits - 1)), (1 << (bits - 1)) - 1) if signed else (0, (1 << bits) - 1)
+                        if lo_ <= v_ <= hi_:
+                            return ok(v_)
+                    return err(Struct("#ParseIntError", {}))
             if fname == "trim":
                 return a0.strip()
             if fname == "trim_start":
